@@ -50,7 +50,7 @@ pub fn def() -> CheckDef {
 
 fn run(seed: u64, tier: Tier, acc: &mut Acc) -> Vec<Found> {
     let mut sc = gen_healthy_history(seed, tier, "C10");
-    sc.params = json!({"enumerate": true});
+    sc.params = json!({"enumerate": true, "flips": if tier.thorough() { 8 } else { 2 }});
     match execute_found(&sc, acc) {
         Ok(f) => {
             acc.sample(sc.compact());
@@ -100,7 +100,7 @@ fn execute_found(sc: &Scenario, acc: &mut Acc) -> Result<Vec<Found>, String> {
         Some(d) => vec![d],
         None if enumerate => {
             acc.exhaustive_within_scenario = true;
-            enumerate_damages(&w, sc.seed, true, false, true)
+            enumerate_damages(&w, sc.seed, true, false, true, sc.params.get("flips").and_then(|v| v.as_u64()).unwrap_or(2))
         }
         None => vec![],
     };
